@@ -107,6 +107,7 @@ type host struct {
 	// what it does to its elements never comes back in later ones.
 	elementMode int
 	keptEls     []keptElement
+	scribbled   []*ysgo.DialogueElement
 	// refusedOps: before every Next the host asks for things the API refuses with an error - a restore at a node the
 	// script does not have, converting registrations of values that are not functions. A refused request changes nothing.
 	refusedOps bool
@@ -181,7 +182,39 @@ func newHostInMemory(srcs []string, seed string, vars map[string]mval) (*host, e
 	h.elementMode = elementModeFor(srcs)
 	h.refusedOps = refusedOpsFor(srcs)
 	h.register()
+	decoyRunnerFor(srcs, seed)
 	return h, nil
+}
+
+// decoyRunnerFor: next to a third of the hosts the process holds another runner of the same script, on which the host has
+// registered functions and commands of its own under every name the script may use - the probes, the commands, the
+// visit functions, the built-ins. What one runner was told is that runner's business: the runner under test never sees
+// any of it. (The decoy is only created and told, never driven.)
+func decoyRunnerFor(srcs []string, seed string) {
+	n := 0
+	for _, s := range srcs {
+		n += len(s)
+	}
+	if (n/9)%3 != 0 {
+		return
+	}
+	decoy, err := ysgo.NewDialogueRunner(nil, seed, readers(srcs)...)
+	if err != nil {
+		return
+	}
+	for _, name := range []string{"pt", "pf", "pb", "pn", "ps", "enter", "noret", "clamp", "visited", "visited_count", "string", "number", "bool", "round", "floor", "dice", "random", "random_range"} {
+		decoy.AddFunction(name, func([]*variable.Value) (*variable.Value, error) {
+			return variable.NewString("the function of ANOTHER runner"), nil
+		})
+	}
+	for name := range modelCommands {
+		decoy.AddCommand(name, func([]*variable.Value) <-chan error {
+			ch := make(chan error, 1)
+			ch <- errors.New("the command handler of ANOTHER runner")
+			return ch
+		})
+	}
+	decoy.AddCommand("wait", func([]*variable.Value) <-chan error { return make(chan error) })
 }
 
 // refusedOpsFor: a third of the hosts make refused requests between the steps.
@@ -224,6 +257,7 @@ func newHost(srcs []string, seed string, vars map[string]mval) (*host, error) {
 	h.elementMode = elementModeFor(srcs)
 	h.refusedOps = refusedOpsFor(srcs)
 	h.register()
+	decoyRunnerFor(srcs, seed)
 	return h, nil
 }
 
@@ -360,6 +394,22 @@ func (h *host) step(arg int) Ev {
 		h.lastOpt = len(el.Options)
 	default:
 		ev = Ev{K: "panic", Text: fmt.Sprintf("element with Line=%v and Options=%v", el.Line != nil, el.Options != nil)}
+	}
+	if h.elementMode == 2 && el != nil && panicked == nil && err == nil {
+		// the host overwrites the elements it received earlier once more (they are its own): the one it has just been given
+		// is another value and still reads what it read
+		for _, old := range h.scribbled {
+			scribbleElement(old)
+		}
+		if now := evOf(el); !sameEv(now, ev) {
+			ev = Ev{K: "panic", Text: fmt.Sprintf("the element just returned read %s; after the host overwrote elements it had received EARLIER it reads %s", ev, now)}
+			h.trace = append(h.trace, ev)
+			h.scribbled = nil
+			return ev
+		}
+		if len(h.scribbled) < 40 {
+			h.scribbled = append(h.scribbled, el)
+		}
 	}
 	h.trace = append(h.trace, ev)
 	if h.elementMode == 2 && el != nil && panicked == nil && err == nil {
